@@ -13,7 +13,8 @@ from . import c01
 LEVEL = "exploration"
 RULE = (
     "(a) pipeline cases as in C01 but with matcher in {threshold, threshold+many-to-one, merge} and decision metric in "
-    "{none, IoU, Dice, ASSD} (thresholds incl. exact candidate scores), all input types; (b) directly constructed "
+    "{none, IoU, Dice, ASSD} (thresholds incl. exact candidate scores), all input types, clDSC as an additional instance "
+    "metric in half of the 2-/3-D cases (its value may be NaN); (b) directly constructed "
     "PanopticaResult(num_pred<=50, num_ref<=50, 0<=tp<=min, lists of tp floats: IoU in [0,1] with Dice=2IoU/(1+IoU), "
     "ASSD>=0, RVD>-1). Oracle = invariants with independently obtained counts: tp+fn = reference instances counted by "
     "the model on the input; tp+fp = distinct labels of the library's matched prediction map (= input count for "
@@ -43,6 +44,10 @@ def pipeline_case(draw):
         case["matcher"]["kind"] = "merge" if kind == "merge" else "naive"
         case["matcher"]["m2o"] = kind == "naive_m2o"
     case["kind"] = "pipeline"
+    # clDSC as an additional instance metric in 2-/3-D (its value may be NaN for a true positive; the
+    # bookkeeping identities must hold regardless)
+    nd = 1 if "rle" in case else np.array(case["ref"]).ndim
+    case["cldsc"] = nd >= 2 and draw(st.booleans())
     return case
 
 
@@ -80,9 +85,12 @@ def identities(lr, stats):
     want_rq = tp / (tp + fp / 2 + fn / 2)
     if not H.same_value(lr["rq"], want_rq, 1e-12):
         raise Violation(f"rq={lr['rq']!r} != tp/(tp+fp/2+fn/2)={want_rq!r}")
-    names = {"IOU": ("sq", "sq_std", "pq"), "DSC": ("sq_dsc", "sq_dsc_std", "pq_dsc"), "ASSD": ("sq_assd", "sq_assd_std", None), "RVD": ("sq_rvd", "sq_rvd_std", None)}
+    names = {"IOU": ("sq", "sq_std", "pq"), "DSC": ("sq_dsc", "sq_dsc_std", "pq_dsc"), "ASSD": ("sq_assd", "sq_assd_std", None), "RVD": ("sq_rvd", "sq_rvd_std", None),
+             "clDSC": ("sq_cldsc", "sq_cldsc_std", "pq_cldsc")}
     for m, l in lr["lists"].items():
         a, s, pqn = names[m]
+        if isinstance(lr.get(a), str):
+            raise Violation(f"{a} could not be computed although tp={tp}: {lr[a]}")
         if not H.same_value(lr[a], M.mean(l), 1e-9):
             raise Violation(f"{a}={lr[a]!r} is not the mean {M.mean(l)!r} of its list")
         if not H.same_value(lr[s], M.pstd(l), 1e-9):
@@ -108,13 +116,23 @@ def check(case, stats):
     from panoptica import InputType
 
     pred, ref, cfg = c01.resolve(case)
+    mets = PM.METRICS + (["clDSC"] if case.get("cldsc") else [])
+    cfg["imetrics"] = mets
     ev = lib.evaluator(cfg)
     res, isd = H.lib_call(ev.evaluate, pred, ref)["ungrouped"]
-    lr = PM.lib_result(res)
+    lr = PM.lib_result(res, metrics=mets)
+    if case.get("cldsc"):
+        with H.quiet():
+            for k in ("sq_cldsc", "sq_cldsc_std", "pq_cldsc"):
+                try:
+                    v = getattr(res, k)
+                    lr[k] = None if v is None else float(v)
+                except Exception as e:
+                    lr[k] = f"ERR:{type(e).__name__}"
     pin = PM.model_instances(pred, cfg["input"], cfg.get("backend"))
     rin = PM.model_instances(ref, cfg["input"], cfg.get("backend"))
     mk = "none" if not cfg.get("matcher") else cfg["matcher"]["kind"] + ("+m2o" if cfg["matcher"].get("m2o") else "")
-    classes = [f"input={cfg['input']}", f"matcher={mk}", f"decision={cfg['decision'][0] if cfg.get('decision') else None}"]
+    classes = [f"input={cfg['input']}", f"matcher={mk}", f"decision={cfg['decision'][0] if cfg.get('decision') else None}"] + (["with_clDSC"] if case.get("cldsc") else [])
     # independent counts
     rejected = 0
     if lr["num_ref_instances"] != len(rin):
